@@ -28,6 +28,9 @@ type C15Sc struct {
 	Chunk  int       `json:"chunk,omitempty"`
 	// WrapMw: transparent message and batch-item middlewares that hand a wrapped context on are installed
 	WrapMw bool `json:"wrap_mw,omitempty"`
+	// SplitMw: a message middleware hands the batch items to the rest of the chain one at a time (several
+	// continuation calls for one request message) and merges the answers: still one request, one placeholder
+	SplitMw bool `json:"split_mw,omitempty"`
 }
 
 var c15Actions = []string{"pr", "pw", "pr,pw", "pw,pr", "pc", "pg", "pw,et", "pw,ps", "y2,pr", "pr,y2,pw,y1,pr", "pw,y3,pr", "y1,pg", "pc,pr", "pw,pc,pr", "ok", "et", "pz", "pw,pz,pr", "pz,pr", "px", "pw,px,pr", "nq", "pw,nq,pr", "nq,pr", "pr,nq,pw"}
@@ -59,6 +62,7 @@ func genC15(g *simrt.Tape, tier string) any {
 	}
 	sc.Chunk = []int{simnet.ChunkMax, simnet.ChunkRandom}[g.Draw(2)]
 	sc.WrapMw = g.Draw(3) == 0
+	sc.SplitMw = g.Draw(4) == 0
 	return sc
 }
 
@@ -167,6 +171,31 @@ func execC15(x *X, scAny any) {
 			return next(context.WithValue(ctx, k2{}, "item-mw"), bi)
 		})
 	}
+	if sc.SplitMw {
+		w.exec.Use(func(next kmipserver.Next, ctx context.Context, msg *kmip.RequestMessage) (*kmip.ResponseMessage, error) {
+			if len(msg.BatchItem) < 2 {
+				return next(ctx, msg)
+			}
+			var merged *kmip.ResponseMessage
+			for i := range msg.BatchItem {
+				part := *msg
+				part.BatchItem = msg.BatchItem[i : i+1]
+				part.Header.BatchCount = 1
+				r, err := next(ctx, &part)
+				if err != nil || r == nil {
+					return r, err
+				}
+				if merged == nil {
+					cp := *r
+					cp.BatchItem = nil
+					merged = &cp
+				}
+				merged.BatchItem = append(merged.BatchItem, r.BatchItem...)
+			}
+			merged.Header.BatchCount = int32(len(merged.BatchItem))
+			return merged, nil
+		})
+	}
 	done := 0
 	total := len(sc.Conns)
 	if sc.Direct {
@@ -258,6 +287,9 @@ func c15Floor(tier string) []*C15Sc {
 			}
 			for _, direct := range []bool{true, false} {
 				out = append(out, &C15Sc{Direct: direct, Conns: []C15Conn{{Reqs: []ReqSc{{Version: 4, Items: append(items, ItemSc{Tok: "pr"})}, {Version: 4, Items: []ItemSc{{Tok: "pr"}}}}}}})
+			}
+			if mask%8 == 0 {
+				out = append(out, &C15Sc{Direct: true, SplitMw: true, WrapMw: noid, Conns: []C15Conn{{Reqs: []ReqSc{{Version: 4, Items: append(items, ItemSc{Tok: "pr"})}, {Version: 4, Items: []ItemSc{{Tok: "pr"}}}}}}})
 			}
 		}
 	}
